@@ -691,6 +691,9 @@ func TestC07Stress(t *testing.T) {
 
 // ---- 3. channel discipline: closed exactly once, also on error ----
 
+// c07WriteWait bounds an uncontended single-triple write; far above anything load can explain.
+const c07WriteWait = 60 * time.Second
+
 func checkC07Channels(ctx *pbt.Ctx, c c09Case) error {
 	bg := context.Background()
 	st := memory.NewStore()
@@ -716,6 +719,28 @@ func checkC07Channels(ctx *pbt.Ctx, c c09Case) error {
 		}
 		if r.Err != nil {
 			ctx.Label("lookup-error")
+		}
+		// no deadlock: whatever the lookup returned, it left no lock behind, so a
+		// writer (and a reader queued behind it) completes
+		if len(all) == 0 {
+			continue
+		}
+		done := make(chan error, 1)
+		go func() {
+			if err := g.AddTriples(bg, all[:1]); err != nil {
+				done <- err
+				return
+			}
+			_, err := g.Exist(bg, all[0])
+			done <- err
+		}()
+		select {
+		case err := <-done:
+			if err != nil {
+				return fmt.Errorf("%s: re-adding a stored triple afterwards fails: %v", desc, err)
+			}
+		case <-time.After(c07WriteWait):
+			return fmt.Errorf("%s returned err=%v; an AddTriples+Exist on the same graph issued afterwards has not returned within %v (deadlock: a lock was left held)", desc, r.Err, c07WriteWait)
 		}
 	}
 	ctx.Nontrivial()
